@@ -150,12 +150,18 @@ Definition ip_of_src (k : ip_kind) (pc : pcontext) : option ip_update :=
   | IpkReg id => option_map mk (get_register pc id)
   | IpkRead v => option_map mk v
   end.
+(* get_registers with the compiled choice of operand registers (set semantics: insertion order does not matter) *)
+Definition operand_regs_src (m : memoperand) : list Z :=
+  (if G_GETREGS_BASE then match mo_base m with Some b => [b] | None => [] end else []) ++
+  (if G_GETREGS_INDEX then match mo_index m with Some i => [i] | None => [] end else []).
+Definition instr_regs_src (ops : list memoperand) : list Z :=
+  fold_left (fun acc id => insert_reg id acc) (flat_map operand_regs_src ops) [].
 Definition analyze_dinstr_src (di : dinstr) (pc : pcontext) : option op_analysis :=
   Some {| oa_accesses := if negb (di_memsize di) then Some []
                          else option_map (fun l => l ++ implicit_access_src (di_implicit di) pc)
                                          (if di_lea di then Some [] else sequence (map (operand_address_src pc) (di_ops di)));
           oa_ip := ip_of_src (di_ip di) pc;
-          oa_regs := instr_regs (di_ops di) |}.
+          oa_regs := instr_regs_src (di_ops di) |}.
 
 (* ------------------------------------------------------------ MINIDUMP_MEMORY_INFO records -> regions, with the compiled permission masks *)
 (* protection = MemoryProtection::from_bits_truncate(raw.protection); is_X = protection.intersects(mask) *)
